@@ -205,7 +205,7 @@ def spec_of(kind, variant=0):
     if kind == "F":
         return ["value", FALSY[variant % len(FALSY)]]
     if kind == "E":
-        return ["error", "EF" if variant % 3 == 2 else "E1"]  # (now and then a falsy exception instance)
+        return ["error", ("E1", "CE", "EF")[variant % 3]]  # (also: a falsy exception instance; a CancelledError INSTANCE as the failure)
     if kind == "C":
         return ["cancel"]
     return None
